@@ -17,6 +17,9 @@ pub struct ClientCfg {
     pub container: Option<String>,
     /// install a logging error handler (false = library default no-op handler)
     pub handler: bool,
+    /// the logging handler panics (a user panic) after logging its k-th invocation
+    #[serde(default)]
+    pub handler_panic_at: Option<u8>,
 }
 
 #[derive(Serialize, Deserialize, Clone, Copy, Debug, PartialEq, Eq, Hash, PartialOrd, Ord)]
@@ -306,6 +309,7 @@ pub fn cfg_strategy(max_tags: usize) -> impl Strategy<Value = ClientCfg> {
             tags,
             container,
             handler,
+            handler_panic_at: None,
         })
 }
 
@@ -613,8 +617,12 @@ pub fn fmt_case(max_calls: usize, max_cfg_tags: usize, max_ops: usize, refuse_we
         prop::bool::weighted(0.65),
         cfg_strategy(max_cfg_tags),
         prop::collection::vec(call_strategy(max_ops, refuse_weight), 1..=max_calls),
+        prop::option::weighted(0.08, 1u8..4),
     )
-        .prop_map(|(free, cfg, calls)| {
+        .prop_map(|(free, mut cfg, calls, hp)| {
+            if cfg.handler && calls.len() >= 3 {
+                cfg.handler_panic_at = hp;
+            }
             let c = FmtCase { cfg, calls };
             if free {
                 sanitize(c)
